@@ -100,6 +100,23 @@ def _as_chunk(args):
     return mk("chunk", base, n, k // n)
 
 
+def byte_of(t):
+    """(x, j) if t denotes byte j (little-endian) of the 64-bit integer term x, in any spelling:
+    x.to_le_bytes()[j], ((x >> 8j) & 0xff) as u8, (x >> 8j) as u8, x as u8"""
+    if not isinstance(t, T):
+        return None
+    if t.op == "index" and t.args[0].op == "le_bytes_of_u64" and t.args[1].op == "lit":
+        return (t.args[0].args[0], t.args[1].args[0])
+    if t.op == "cast" and t.args[0] == "u8":
+        x = t.args[1]
+        if x.op == "band" and any(isinstance(a, T) and a.op == "lit" and a.args[0] == 255 for a in x.args):
+            x = [a for a in x.args if not (a.op == "lit" and a.args[0] == 255)][0]
+        if x.op == "shr" and x.args[1].op == "lit" and isinstance(x.args[1].args[0], int) and x.args[1].args[0] % 8 == 0 and 0 <= x.args[1].args[0] < 64:
+            return (x.args[0], x.args[1].args[0] // 8)
+        return (x, 0)
+    return None
+
+
 def _as_limb_bytes(args):
     """[le(L[0])[0..8], le(L[1])[0..8], ...]  ==  little-endian bytes of the u64 limb array L"""
     n = len(args)
@@ -108,9 +125,10 @@ def _as_limb_bytes(args):
     L = None
     for pos, a in enumerate(args):
         i, j = divmod(pos, 8)
-        if not (isinstance(a, T) and a.op == "index" and a.args[1].op == "lit" and a.args[1].args[0] == j and a.args[0].op == "le_bytes_of_u64"):
+        bo = byte_of(a)
+        if bo is None or bo[1] != j:
             return None
-        li = a.args[0].args[0]
+        li = bo[0]
         if not (li.op == "index" and li.args[1].op == "lit" and li.args[1].args[0] == i):
             return None
         if L is None:
@@ -390,6 +408,10 @@ def update_field(base, name, val):
 
 
 def index(base, idx):
+    if base.op == "le_bytes_of_u64" and is_lit(idx) and isinstance(idx.args[0], int) and 0 <= idx.args[0] < 8:
+        # byte k of a u64 in little-endian order is the 8-bit window at bit 8k
+        k = idx.args[0]
+        return mk("cast", "u8", intop("band", intop("shr", base.args[0], lit(8 * k)) if k else base.args[0], lit(255)))
     if base.op == "bits_le" and idx is lit(0):
         return mk("sign", base.args[0])      # lsb of the canonical little-endian bit decomposition = the sign convention
     if is_lit(idx) and isinstance(idx.args[0], int):
@@ -506,6 +528,11 @@ def cmp(op, a, b):
     if is_lit(a) and is_lit(b):
         x, y = a.args[0], b.args[0]
         return lit({"lt": x < y, "le": x <= y, "gt": x > y, "ge": x >= y}[op])
+    # one canonical spelling per order relation (total orders):  a < b  ==  !(a >= b),   a <= b  ==  !(a > b)
+    if op == "lt":
+        return not_(mk("ge", a, b))
+    if op == "le":
+        return not_(mk("gt", a, b))
     return mk(op, a, b)
 
 
